@@ -110,6 +110,7 @@ def cases(draw, tier="quick"):
             kept.insert(draw(st.integers(0, len(kept))), "no_such_field")
     nlev = spec["mesh"]["nlev"]
     return dict(spec=spec, recipe=recipe, kept=kept, serial=draw(st.booleans()),
+                cli=(kind != "callable") and draw(st.sampled_from([False, False, True])),
                 sched=dict(exec=[draw(st.lists(st.integers(0, 7), max_size=4)) for _ in range(nlev)], lazy=draw(st.booleans())))
 
 
@@ -215,10 +216,23 @@ def check_case(case, ctx):
             kw["reactions"] = list(rec["reactions"])
         ncomp = len(kw.get("species", kw.get("reactions", [0])))
     ctx.nontrivial("non-monotone" in labs or "scattered" in labs or bool(kept_known) or ncomp > 1 or not case["serial"])
+    use_cli = bool(case.get("cli")) and not case["serial"]      # the command line always cooks in parallel
+    if use_cli:
+        ctx.label("cli")
     pools.set_schedule(None if case["serial"] else case["sched"])
     try:
-        c = qcall(Chef, "src", **kw)
-        qcall(c.cook)
+        if use_cli:
+            import amr_kitchen.chef.cli as cli
+            argv = ["chef", "src", "-o", "out", "-r", kw["recipe"]]
+            argv += ["-m", kw["mech"]] if "mech" in kw else []
+            argv += ["-p", repr(kw["pressure"])] if "pressure" in kw else []
+            argv += ["-s"] + kw["species"] if "species" in kw else []
+            argv += ["-R"] + [str(r) for r in kw["reactions"]] if "reactions" in kw else []
+            argv += ["-k", kw["kept_fields"]] if kw["kept_fields"] is not None else []
+            common.run_main(cli.main, argv)
+        else:
+            c = qcall(Chef, "src", **kw)
+            qcall(c.cook)
     except Exception as e:
         return [f"chef raised {type(e).__name__}: {str(e)[:300]} (recipe {rec}, kept {kept}, serial {case['serial']})"]
     finally:
